@@ -231,6 +231,7 @@ type hTask struct {
 	kind                               string // blk | fill | bar
 	gate                               chan struct{}
 	submitted, arrived, released, done bool
+	dropped                            bool // refused by a stopped pool (or possibly so)
 }
 
 type qPool struct {
@@ -373,7 +374,7 @@ func (r *qRun) submit(id int, ctx context.Context, task *concurrent.Task) {
 func (r *qRun) queued(p int) int {
 	k := r.queuedWork(p)
 	for _, h := range r.pools[p].tasks {
-		if h.kind == "blk" && h.submitted && !h.arrived {
+		if h.kind == "blk" && h.submitted && !h.arrived && !h.dropped {
 			k++
 		}
 	}
@@ -384,7 +385,7 @@ func (r *qRun) queued(p int) int {
 func (r *qRun) queuedWork(p int) int {
 	k := 0
 	for _, h := range r.pools[p].tasks {
-		if h.kind != "blk" && h.submitted && !h.arrived {
+		if h.kind != "blk" && h.submitted && !h.arrived && !h.dropped {
 			k++
 		}
 	}
@@ -589,11 +590,21 @@ func (r *qRun) submitH(p int, kind string, gate chan struct{}, guard time.Durati
 		h.done = true
 		r.cond.Broadcast()
 		r.mu.Unlock()
-	}, nil)
+	}, func(error) {
+		r.mu.Lock()
+		h.dropped = true
+		r.cond.Broadcast()
+		r.mu.Unlock()
+	})
 	go func() {
 		r.pools[p].real.Submit(context.Background(), task)
 		r.mu.Lock()
 		h.submitted = true
+		if r.pools[p].real.Stopped() && !h.arrived {
+			// a blocker on its way while the pool was stopped: accepted (Stop runs it) or
+			// refused, the harness does not wait for it
+			h.dropped = true
+		}
 		r.cond.Broadcast()
 		r.mu.Unlock()
 	}()
@@ -645,6 +656,9 @@ func (r *qRun) stable() bool {
 	}
 	for _, pl := range r.pools {
 		for _, h := range pl.tasks {
+			if h.dropped {
+				continue
+			}
 			if h.submitted && h.released && !h.done && h.kind != "bar" {
 				return false
 			}
